@@ -70,25 +70,28 @@ theorem send_dead_nothing_sent (tr : Transport) (r : Request) (rs : List Request
 
 /-! ### Status interpretation -/
 
-/-- HTTP: success iff the status is 2xx. gRPC: success iff the HTTP status is 2xx and the `grpc-status` (from
-    the trailers, or from the headers of a Trailers-Only response) is absent or 0. -/
+/-- HTTP: success iff the status is 2xx. gRPC: success iff the HTTP status is 2xx, the response body and
+    trailers arrive to their end (inside the request timeout) and the `grpc-status` (from the trailers, or from
+    the headers of a Trailers-Only response) is absent or 0. -/
 theorem status_table (r : Resp) :
     (interpret .http r = true ↔ (200 ≤ r.httpStatus ∧ r.httpStatus < 300)) ∧
     (interpret .grpc r = true ↔
-      (200 ≤ r.httpStatus ∧ r.httpStatus < 300 ∧ (r.grpcStatus = none ∨ r.grpcStatus = some 0))) := by
+      (200 ≤ r.httpStatus ∧ r.httpStatus < 300 ∧ r.bodyEnds = true ∧
+        (r.grpcStatus = none ∨ r.grpcStatus = some 0))) := by
   constructor
   · simp [interpret]
   · cases h : r.grpcStatus <;> simp [interpret, h, and_assoc]
 
-/-- Everything the property lists as a failure is a failure for the client (and so is retried): a timeout, a
-    connection dropped before or after the body was read, a non-2xx status on either transport, a non-zero
+/-- Everything the property lists as a failure is a failure for the client (and so is retried): a timeout
+    (no answer at all, or — gRPC — headers and then silence), a connection dropped before or after the body was
+    read, a non-2xx status on either transport, a non-zero
     gRPC status in trailers or in a Trailers-Only response. -/
 theorem failures_of_the_property_fail (tr : Transport) (n : Nat) :
-    okResp tr .stall = false ∧ okResp tr .rstB = false ∧ okResp tr .rstA = false ∧
+    okResp tr .stall = false ∧ okResp .grpc .stallH = false ∧ okResp tr .rstB = false ∧ okResp tr .rstA = false ∧
     ((n < 200 ∨ 300 ≤ n) → okResp tr (.status n) = false) ∧
     (n ≠ 0 → okResp .grpc (.grpc n) = false ∧ okResp .grpc (.grpcH n) = false) ∧
     okResp tr .ack = true ∧ okResp tr .ackBody = true ∧ okResp .grpc (.grpc 0) = true := by
-  refine ⟨by cases tr <;> decide, by cases tr <;> decide, by cases tr <;> decide, ?_, ?_,
+  refine ⟨by cases tr <;> decide, by decide, by cases tr <;> decide, by cases tr <;> decide, ?_, ?_,
     by cases tr <;> decide, by cases tr <;> decide, by decide⟩
   · intro h
     cases hb : okResp tr (.status n) with
